@@ -193,6 +193,8 @@ for sig in list(range(-2, 18)) + [255]:
     def hc():
         m2.count_cores_in_state(sig, app); return m2.calls
     add("MachineController_count_cores_in_state %s %s" % (L(sig), L(app)), exc(hc))
+def EV(evs):
+    return "[" + ",".join('{name:="%s",ints:=%s,bytes:=%s}' % (n, show(i), show(b)) for n, i, b in evs) + "]"
 from rig.machine_control.packets import SDPPacket, SCPPacket, _unpack_sdp_into_packet
 def B(v): return "true" if v else "false"
 def exc_(f):
@@ -234,6 +236,19 @@ for _ in range(60):
         q = SDPPacket.from_bytestring(bs)
         return "(" + ",".join(sdp_state(q)) + ")"
     add("SDPPacket_from_bytestring false 255 0 0 7 31 0 0 0 0 [] %s" % L([int(b) for b in bytearray(bs)]), exc_(hg))
+class RecFill(MachineController):
+    def __init__(self):
+        ContextMixin.__init__(self, {})
+        self.ev = []
+    def _send_scp(self, *args): self.ev.append(("_send_scp", [int(a) for a in args], []))
+    def write(self, address, data, x, y, p=0): self.ev.append(("write", [address, x, y, p], [int(b) for b in bytearray(data)]))
+for _ in range(30):
+    addr, dat, size = rng.choice([0, 4, 8, 5, 6]), rng.choice([0, 1, 255, 256, 300, 0xdeadbeef]), rng.choice([0, 4, 8, 3, 5, 12])
+    x, y, pp = rng.randint(0, 7), rng.randint(0, 7), rng.randint(0, 17)
+    m = RecFill()
+    def hfill():
+        m.fill(addr, dat, size, x, y, pp); return EV(m.ev)
+    add("MachineController_fill %s %s %s %s %s %s" % (L(addr), L(dat), L(size), L(x), L(y), L(pp)), exc_(hfill))
 from rig.place_and_route.utils import _get_minimal_core_reservations
 for _ in range(40):
     cs = sorted(rng.sample(range(20), rng.randint(0, 8))) if rng.random() < 0.8 else [rng.randint(0, 6) for _ in range(rng.randint(0, 6))]
@@ -251,8 +266,6 @@ for _ in range(40):
         rte, app, core = r
         return "(some" + show(((sorted(int(x) for x in rte.route), rte.key, rte.mask), app, core)) + ")"
     add("unpack_routing_table_entry %s" % L([int(b) for b in bs]), exc_(hu2))
-def EV(evs):
-    return "[" + ",".join('{name:="%s",ints:=%s,bytes:=%s}' % (n, show(i), show(b)) for n, i, b in evs) + "]"
 from rig.machine_control import boot as _boot
 class Sock(object):
     def __init__(self): self.sent = []
